@@ -101,6 +101,8 @@ pub enum Damage {
     /// a shorter image written over a longer one without truncation
     StaleTail(usize),
     SetByte(usize, u8),
+    /// structure-aware bit rot: the length word of the k-th inline datum in the image becomes `n`
+    InlineSize(usize, u8),
 }
 
 /// Predicate families for `slice_some`.
@@ -253,6 +255,10 @@ pub struct Cfg {
     /// (N, capacity) the contract is judged by, when the graph itself is built larger (K-replicas of C19)
     #[serde(default)]
     pub contract: Option<(usize, usize)>,
+    /// C01 only: the model adopts the implementation's collections after the history-phrased safety
+    /// clauses have been evaluated, so a run goes on past an exactness divergence (which is C02's)
+    #[serde(default)]
+    pub adopt_alive: bool,
 }
 
 impl Cfg {
